@@ -1351,6 +1351,15 @@ class Tensor:
             for t in topo_sorted_tensors:
                 t._backward()
 
+        if (
+            grad is not None
+            and self._grad is _grad
+            and np.may_share_memory(_grad, asarray(grad))
+        ):
+            # `grad` was used as-is to seed backprop: do not leave the caller's array
+            # (or another tensor's data) in place as this tensor's gradient
+            self._grad = _grad.copy()
+
         self.clear_graph()
 
     def _backward(self):
